@@ -445,6 +445,73 @@ fn sub_line_hdr(tier: Tier) -> Sub {
     .flavours(tier.pick(&["chk"], &["chk", "rel"]))
 }
 
+// ---- register transitions: every row is (one register change; copy), so that every register moves
+// up, down and back to its default between consecutive rows
+
+const NREG: u64 = 17;
+
+fn reg_sym(s: u64, lp: &LineM) -> Option<Vec<LI>> {
+    let chg = match s {
+        0 => vec![],
+        1 => vec![LI::SetColumn(7)],
+        2 => vec![LI::SetColumn(3)],
+        3 => vec![LI::SetColumn(0)],
+        4 => vec![LI::SetFile(2)],
+        5 => vec![LI::SetFile(1)],
+        6 => vec![LI::AdvanceLine(3)],
+        7 => vec![LI::AdvanceLine(-2)],
+        8 => vec![LI::AdvanceLine(40)],
+        9 => vec![LI::NegateStmt],
+        10 => vec![LI::SetIsa(2)],
+        11 => vec![LI::SetIsa(0)],
+        12 => vec![LI::SetDiscriminator(9)],
+        13 => vec![LI::SetBasicBlock],
+        14 => vec![LI::SetPrologueEnd, LI::SetEpilogueBegin],
+        15 => vec![LI::AdvancePc(1)],
+        _ => vec![LI::AdvancePc(300)],
+    };
+    let _ = lp;
+    let mut v = chg;
+    v.push(LI::Copy);
+    Some(v)
+}
+
+fn sub_line_regs(tier: Tier) -> Sub {
+    let mut cfgs = vec![];
+    for version in [2u16, 3, 4, 5] {
+        for (fmt64, asz, big) in tier.pick(vec![(false, 8u8, false)], vec![(false, 8u8, false), (true, 4, true)]) {
+            cfgs.push(Cfg { version, fmt64, asz, big });
+        }
+    }
+    let maxlen = tier.pick(3u32, 4u32);
+    let nseq = space::seq_count(NREG, 1, maxlen);
+    let len = nseq * 2 * cfgs.len() as u64;
+    let bound = format!("line register transitions: every sequence of 1..={} rows, each row = (one register change; copy) over {} changes (none, set_column 7/3/0, set_file 2/1, advance_line +3/-2/+40, negate_stmt, set_isa 2/0, set_discriminator, set_basic_block, prologue_end+epilogue_begin, advance_pc 1/300) after set_address 0x1000, closed by advance_pc 2; end_sequence = {} programs x minimum_instruction_length {{1,4}} x {} configs", maxlen, NREG, nseq, cfgs.len());
+    Sub::new("line-register-transitions", len, &bound, move |ctx, i| {
+        let mut x = Mix(i);
+        let seq = space::seq_decode(NREG, 1, maxlen, x.take(nseq));
+        let min_inst = if x.flag() { 4 } else { 1 };
+        let cfg = *x.pick(&cfgs);
+        let mut lp = std_line(cfg, vec![]);
+        lp.min_inst = min_inst;
+        let mut insns = vec![LI::SetAddress(0x1000)];
+        for &s in &seq {
+            insns.extend(reg_sym(s as u64, &lp).unwrap());
+        }
+        insns.push(LI::AdvancePc(2));
+        insns.push(LI::EndSequence);
+        lp.insns = insns.clone();
+        ctx.nontriv(1);
+        let m = line_unit(cfg, lp, None);
+        let b = build(&m);
+        let case = || format!("{} min_inst_len={} program=[{}] sections: {}", cfg.name(), min_inst, insns.iter().map(li_name).collect::<Vec<_>>().join(", "), render_secs(&b.secs));
+        if ctx.want_sample() {
+            ctx.sample(case());
+        }
+        check_dwarf(ctx, &b.secs, cfg.big, &[Api::From, Api::StepSeq], "linereg", "", &case);
+    })
+}
+
 // ---------------------------------------------------------------------------
 // Range and location lists of every kind, length <= 2
 
@@ -908,22 +975,23 @@ pub fn check_frame(ctx: &mut Ctx, m: &FrameM, tag: &str, feat: &str, case: &dyn 
     let _ = diff_kind;
 }
 
-fn sub_cfi(tier: Tier, rel: bool) -> Sub {
+fn sub_cfi(tier: Tier, rel: bool, interleaved: bool) -> Sub {
     let quick_rel = rel && tier == Tier::Quick;
     // (eh, version)
     let kinds: Vec<(bool, u8)> = vec![(false, 1), (false, 3), (false, 4), (true, 1)];
-    let cafs = [1u64, 4, 255, 256];
-    let dafs = [-8i64, 1, 0];
+    let cafs: Vec<u64> = if interleaved { vec![1, 4] } else { vec![1, 4, 255, 256] };
+    let dafs: Vec<i64> = if interleaved { vec![-8] } else { vec![-8, 1, 0] };
     let cfgs: Vec<Cfg> = tier.pick(
         if quick_rel { vec![Cfg { version: 4, fmt64: false, asz: 8, big: false }] } else { vec![Cfg { version: 4, fmt64: false, asz: 8, big: false }, Cfg { version: 4, fmt64: false, asz: 4, big: true }] },
         vec![Cfg { version: 4, fmt64: false, asz: 8, big: false }, Cfg { version: 4, fmt64: false, asz: 4, big: true }, Cfg { version: 4, fmt64: true, asz: 8, big: false }, Cfg { version: 4, fmt64: false, asz: 4, big: false }],
     );
-    let maxlen = tier.pick(2u32, 3u32);
+    let maxlen = if interleaved { tier.pick(3u32, 4u32) } else { tier.pick(2u32, 3u32) };
+    let cfgs: Vec<Cfg> = if interleaved { cfgs[..1].to_vec() } else { cfgs };
     let nseq = space::seq_count(NCFA, 0, maxlen);
     let len = nseq * kinds.len() as u64 * cafs.len() as u64 * dafs.len() as u64 * cfgs.len() as u64;
-    let bound = format!("every FDE instruction sequence of length 0..={} over a {}-instruction alphabet (advance_loc/1/2/4 incl. delta 0x40000000, def_cfa with offsets 16 and 2^32+8, def_cfa_sf, def_cfa_register, def_cfa_offset 24 / 2^31, def_cfa_offset_sf, offset, offset_extended, offset_extended_sf, val_offset(_sf), undefined, same_value, register, remember/restore_state, restore, restore_extended, def_cfa_expression, expression, val_expression, GNU_args_size, nop, set_loc) = {} x section {{.debug_frame v1, v3, v4, .eh_frame v1}} x code_alignment_factor {{1,4,255,256}} x data_alignment_factor {{-8,1,0}} x {} configs; CIE initial instructions def_cfa(r7,8); offset(r16,1)", maxlen, NCFA, nseq, cfgs.len());
-    let bound = format!("{}; {} build flavour", bound, if rel { "release" } else { "chk" });
-    Sub::new(if rel { "cfi-rel" } else { "cfi" }, len, &bound, move |ctx, i| {
+    let bound = format!("every FDE instruction sequence of length 0..={} over a {}-instruction alphabet (advance_loc/1/2/4 incl. delta 0x40000000, def_cfa with offsets 16 and 2^32+8, def_cfa_sf, def_cfa_register, def_cfa_offset 24 / 2^31, def_cfa_offset_sf, offset, offset_extended, offset_extended_sf, val_offset(_sf), undefined, same_value, register, remember/restore_state, restore, restore_extended, def_cfa_expression, expression, val_expression, GNU_args_size, nop, set_loc) = {} x section {{.debug_frame v1, v3, v4, .eh_frame v1}} x alignment factors (below) x {} configs; CIE initial instructions def_cfa(r7,8); offset(r16,1)", maxlen, NCFA, nseq, cfgs.len());
+    let bound = format!("{}{}; factors {:?} x {:?}; {} build flavour", bound, if interleaved { "; an advance_loc 1 is inserted before every instruction and after the last, so that every intermediate rule set is a row" } else { "" }, cafs, dafs, if rel { "release" } else { "chk" });
+    Sub::new(if interleaved { "cfi-interleaved" } else if rel { "cfi-rel" } else { "cfi" }, len, &bound, move |ctx, i| {
         let mut x = Mix(i);
         let seq = space::seq_decode(NCFA, 0, maxlen, x.take(nseq));
         let (eh, ver) = *x.pick(&kinds);
@@ -934,7 +1002,17 @@ fn sub_cfi(tier: Tier, rel: bool) -> Sub {
             ctx.outcome("cfi:eh_frame-64bit-not-generated");
             return;
         }
-        let insns: Vec<Cfa> = seq.iter().map(|&s| cfa_sym(s as u64, cfg)).collect();
+        let mut insns: Vec<Cfa> = vec![];
+        for &s in &seq {
+            if interleaved {
+                insns.push(Cfa::AdvanceLoc(1));
+            }
+            insns.push(cfa_sym(s as u64, cfg));
+        }
+        if interleaved {
+            insns.push(Cfa::AdvanceLoc(1));
+            insns.push(Cfa::Nop);
+        }
         let m = FrameM {
             eh,
             cfg,
@@ -1074,7 +1152,7 @@ fn sub_cfi_params(_tier: Tier) -> Sub {
 }
 
 pub fn subs(tier: Tier) -> Vec<Sub> {
-    let mut v = vec![sub_line(tier, false, false), sub_line(tier, true, false), sub_line_hdr(tier), sub_lists(tier), sub_expr(tier), sub_unit_kinds(tier), sub_cfi(tier, false), sub_cfi(tier, true), sub_cfi_params(tier)];
+    let mut v = vec![sub_line(tier, false, false), sub_line(tier, true, false), sub_line_hdr(tier), sub_lists(tier), sub_expr(tier), sub_unit_kinds(tier), sub_cfi(tier, false, false), sub_cfi(tier, true, false), sub_cfi(tier, false, true), sub_cfi_params(tier), sub_line_regs(tier)];
     if tier == Tier::Thorough {
         v.push(sub_line(tier, false, true));
     }
@@ -1099,6 +1177,8 @@ pub fn required() -> Vec<String> {
         "cfi:caf=256",
         "cfi:daf=0",
         "cfip:ok",
+        "linereg:ok",
+        "linereg:reconvert-identical",
     ]
     .iter()
     .map(|s| s.to_string())
